@@ -513,7 +513,11 @@ static void emitCall(const CallBase *ci) {
     }
     if (libcFns.count(n) || StringRef(n).startswith("__CPROVER")) {
       if (optFrozen && (n == "free" || n == "realloc")) b << "  FROZEN_CHECK(" << arg(0) << ");\n";
-      b << "  " << (rt->isVoidTy() ? "" : lhs + "(" + ctype(rt) + ")") << (libcFns.count(n) ? "LL_" : "") << n << "(";
+      // allocations of a compile-time constant size never go through the LL_MEM_CASES split (they keep their element type)
+      bool constAlloc = false;
+      if (n == "malloc" && ci->arg_size() == 1) constAlloc = isa<ConstantInt>(ci->getArgOperand(0));
+      if (n == "calloc" && ci->arg_size() == 2) constAlloc = isa<ConstantInt>(ci->getArgOperand(0)) && isa<ConstantInt>(ci->getArgOperand(1));
+      b << "  " << (rt->isVoidTy() ? "" : lhs + "(" + ctype(rt) + ")") << (libcFns.count(n) ? "LL_" : "") << n << (constAlloc ? "_const" : "") << "(";
       // allocation of a constant number of bytes that is immediately viewed as T*: say sizeof(T)*k so that cbmc types the
       // object as T[k] instead of a byte array (typed field access instead of byte_extract on every load/store)
       int szArg = (n == "malloc") ? 0 : (n == "calloc" ? 1 : (n == "realloc" ? 1 : -1));
